@@ -8,7 +8,11 @@ import Sebuf.DriverC10
 import Sebuf.DriverC13
 import Sebuf.DriverC05
 import Sebuf.DriverOA
+import Sebuf.DriverC11
+import Sebuf.DriverC20
+import Sebuf.DriverC07
 import Sebuf.DriverC17
+import Sebuf.DriverC19
 namespace Sebuf.DriverOps
 def dispatch (op : String) (j : Lean.Json) : Lean.Json :=
   match op with
@@ -28,7 +32,21 @@ def dispatch (op : String) (j : Lean.Json) : Lean.Json :=
   | "oa_components" => Sebuf.Driver.opOaComponents j
   | "oa_names" => Sebuf.Driver.opOaNames j
   | "yaml11" => Sebuf.Driver.opYaml11 j
+  | "oa_schema" => Sebuf.Driver.opOaSchema j
+  | "ts_decls" => Sebuf.Driver.opTsDecls j
+  | "ts_inhabits" => Sebuf.Driver.opTsInhabits j
+  | "ts_case" => Sebuf.Driver.opTsCase j
+  | "ts_handler" => Sebuf.Driver.opTsHandler j
+  | "mock_answer" => Sebuf.Driver.opMockAnswer j
   | "strfn" => Sebuf.Driver.opStrFn j
+  | "dec_case" => Sebuf.Driver.opDecCase j
+  | "serve_case" => Sebuf.Driver.opServeCase j
+  | "child_key" => Sebuf.Driver.opChildKey j
+  | "aux_case" => Sebuf.Driver.opAuxCase j
+  | "client_case" => Sebuf.Driver.opClientCase j
   | "c17_calls" => Sebuf.Driver.opC17Calls j
+  | "c19_case" => Sebuf.Driver.opC19Case j
+  | "c19_required" => Sebuf.Driver.opC19Required j
+  | "c19_yaml" => Sebuf.Driver.opC19Yaml j
   | _ => Lean.Json.mkObj [("driver_err", Lean.Json.str ("unknown op " ++ op))]
 end Sebuf.DriverOps
